@@ -59,7 +59,18 @@ def _normdim(length, index):
         out[i] = SInt(z3.If(x.t < 0, x.t + n.t, x.t))
     return SArray(out, 'i')
 
-ADAPT = {('InsertAxis', 'evalf'): _insertaxis, ('InRange', 'evalf'): _inrange, ('NormDim', 'evalf'): _normdim}
+def _transform_coords(chain, coords):
+    '''affine maps of the (concrete) transform chain applied to symbolic coordinates'''
+    c = SArray.wrap(coords)
+    for t in reversed(chain):
+        lin = numpy.asarray(t.linear, dtype=float); off = numpy.asarray(t.offset, dtype=float)
+        if lin.shape[1] == 0:
+            c = SArray.wrap(numpy.broadcast_to(off, c.shape[:-1] + off.shape).copy())
+        else:
+            c = numpy.einsum('...j,ij->...i', c, SArray.wrap(lin)) + SArray.wrap(off)
+    return c
+
+ADAPT = {('TransformCoords', '_transform_coords'): _transform_coords, ('InsertAxis', 'evalf'): _insertaxis, ('InRange', 'evalf'): _inrange, ('NormDim', 'evalf'): _normdim}
 
 class _ClsProxy:
     def __init__(self, cls): self._cls = cls
